@@ -25,6 +25,7 @@ modelbased.install(globals(), "C05", ["num", "flatten", "localindex"], CFG, nont
 # tier-P emulation (added after the seeded change C05-c - ak.flatten(axis=0) no longer removing missing entries below an
 # IndexedArray - was missed: the tier-L part above reaches the C++ methods only)
 from hypothesis import strategies as st  # noqa: E402
+import numpy as np  # noqa: E402
 
 from checks import pcommon as P  # noqa: E402
 from vlib.common import Violation  # noqa: E402
@@ -38,7 +39,26 @@ P5CFG = gen.Cfg(max_depth=3, leaf_dtypes=("int64", "float64"), records=False, un
 def _p5_cases(draw):
     T = draw(gen.types(P5CFG))
     vals = draw(gen.values(T, P5CFG))
-    fn = draw(st.sampled_from(["flatten0", "flatten0", "flatten0_union", "flatten1", "flatten_none", "ravel", "num1", "local_index1", "unflatten"]))
+    fn = draw(st.sampled_from(["flatten0", "flatten0", "flatten0_union", "flatten1", "flatten_none", "ravel", "num1", "local_index1", "unflatten", "unflatten_axis1",
+                               "unflatten_axis1"]))
+    if fn == "unflatten_axis1":
+        # unflatten(flatten(x, axis=2), the lengths of the lists at axis 2, axis=1) == x for lists of lists of lists without missing or empty
+        # lists at the innermost split level (added after the seeded change C05-f - unflatten at axis > 0 below a reordering option node -
+        # was missed: only axis=0 round trips were generated)
+        X = draw(st.sampled_from([["prim", "int64"], ["prim", "float64"], ["option", ["prim", "int64"]]]))
+        T3 = ["list", ["list", X]]
+        if draw(st.booleans()):
+            T3 = ["option", T3]
+
+        def inner():
+            return [draw(gen.value(X, P5CFG)) for _ in range(draw(st.integers(1, 3)))]
+
+        def middle():
+            if T3[0] == "option" and draw(st.integers(0, 4)) == 0:
+                return None
+            return [inner() for _ in range(draw(st.integers(0, 3)))]
+        vals3 = [middle() for _ in range(draw(st.integers(0, 5)))]
+        return {"part": "P", "fn": fn, "desc": draw(gen.encode(T3, vals3, P5CFG))}
     if fn == "flatten0_union":
         # a union whose members carry the missing values themselves (valid: only option directly inside option/indexed is not), seen
         # through a reordering IndexedArray - the encoding the generator's type-directed unions never produce
@@ -94,7 +114,11 @@ def _p5_run(case):
     T, V = M.decode(case["desc"])
     fn = case["fn"]
     islist = M.strip_option(T)[0] in ("list", "regular")
-    if fn == "flatten0":
+    if fn == "unflatten_axis1":
+        expected = V
+        counts = np.array([len(z) for y in V if y is not None for z in y], dtype=np.int64)
+        kind, res = P.outcome(lambda: A.unflatten(A.flatten(a, axis=2), counts, axis=1))
+    elif fn == "flatten0":
         expected = [v for v in V if v is not None]
         kind, res = P.outcome(lambda: A.flatten(a, axis=0))
     elif fn in ("flatten_none", "ravel"):
